@@ -101,24 +101,21 @@ impl<T: Debug + Clone + Ord> BooleanFunction<T> for TruthTable<T> {
         let mut outputs = vec![];
 
         for original_point in DomainIterator::from_count(final_inputs.len()) {
-            let mut final_point = original_point.clone();
             let original_valuation =
-                boolean_point_to_valuation(final_inputs.clone(), original_point.clone()).expect(
+                boolean_point_to_valuation(final_inputs.clone(), original_point).expect(
                     "Point should be from domain of the same dimension as the number of inputs",
                 );
 
-            // alter current valuation based on mappings
-            for (index, variable) in final_inputs.iter().enumerate() {
-                if let Some(substitution_table) = mapping.get(variable) {
-                    let output = substitution_table.evaluate(&original_valuation);
-                    final_point[index] = output;
-                }
+            // every substituted variable takes the value of its replacement at the original valuation,
+            // also when the variable itself is no longer among the final inputs
+            let mut final_valuation = original_valuation.clone();
+            for (variable, substitution_table) in mapping {
+                final_valuation.insert(
+                    variable.clone(),
+                    substitution_table.evaluate(&original_valuation),
+                );
             }
 
-            let final_valuation = boolean_point_to_valuation(final_inputs.clone(), final_point)
-                .expect(
-                    "Point should be from domain of the same dimension as the number of inputs",
-                );
             outputs.push(self.evaluate(&final_valuation))
         }
 
